@@ -272,8 +272,9 @@ def cmd_run(pid, tier, keep=False):
             n_viol_cases += vc['count']
             e = match_known(known, pid, tier, cfg, pname, key, vc)
             if e is not None:
-                h = known_hit.setdefault(e['id'], dict(entry=e, classes=0, cases=0, example=None))
+                h = known_hit.setdefault(e['id'], dict(entry=e, classes=0, cases=0, example=None, keys={}))
                 h['classes'] += 1
+                h['keys'][key] = h['keys'].get(key, 0) + vc['count']
                 h['cases'] += vc['count']
                 h['example'] = h['example'] or (vc['examples'][0] if vc['examples'] else None)
             else:
@@ -351,7 +352,8 @@ def cmd_run(pid, tier, keep=False):
         programs_not_started=sorted(skipped_programs)[:50],
         build_s=round(t_built - t_start, 1),
         violation_cases=n_viol_cases,
-        known_findings_matched=[dict(id=k, classes=h['classes'], cases=h['cases']) for k, h in sorted(known_hit.items())],
+        known_findings_matched=[dict(id=k, classes=h['classes'], cases=h['cases'], distinct_keys=len(h['keys']),
+                                     keys=dict(sorted(h['keys'].items())[:60])) for k, h in sorted(known_hit.items())],
         repo=REPO,
         repo_head=git_head(),
     )
